@@ -9,6 +9,14 @@ HERE = os.path.dirname(os.path.dirname(os.path.abspath(__file__)))
 BASELINE = "cd /repo && /venv/bin/python -m pytest -ra -q -p no:cacheprovider --timeout=900 --continue-on-collection-errors"
 
 CHECKS = {
+    "C02": dict(
+        level="exploration",
+        technique="deviation-bounded enumeration (k<=1 quick, k<=2 thorough) per format on the real dump_one/load_one, digits-aware attribute comparison, deterministic minimisation",
+        text="Per read/write format: every object with <=k deviations from a default over atom counts crossing each field width, element sets, coordinate ranges, titles, bonds of every type, "
+        "optional attributes/keys, grid shapes and values, matrix sizes is written, reloaded and compared attribute by attribute.",
+        note="stored-attribute tables and printed digits typed per format in props/fmtspecs.py / wfnspecs.py; multi-line titles outside the domain",
+        design="DESIGN.md §2 C02",
+    ),
     "C06": dict(
         level="exploration",
         technique="exhaustive grid identity for the 1-D kernel (degree argument), exhaustive table comparison, deviation-bounded enumeration over all ordered shell-type pairs on the real compute_overlap",
@@ -49,6 +57,13 @@ CHECKS = {
         "each x allow_changes for prepare_*; structure, function values in order, overlap, idempotence, same-object and warning/error contract.",
         note="function values by ref/gto.py at 8 probe points; expected alpha/beta occupations restated from the class documentation",
         design="DESIGN.md §2 C14",
+    ),
+    "C15": dict(
+        level="model_checking",
+        technique="explicit exploration of conversion chains of depth 3 (dump/load cycles) from every start object of the C02 space; bit-identity of reached states and byte-identity of files",
+        text="For every C02 case the chain x0 -> x1 -> x2 -> x3 (dump_one/load_one in the same format) is executed; x2 must be bit-identical to x1, x3 to x2 and file 3 byte-identical to file 2 (fixpoint at depth 1).",
+        note="states are deep snapshots of every attrs field (arrays by dtype/shape/bytes); QCSchema provenance growth is filtered as documented",
+        design="DESIGN.md §2 C15",
     ),
     "C17": dict(
         level="exploration",
